@@ -38,7 +38,7 @@ def run(res, tier, seed, replay):
             p = [e for e in iev if e.startswith("P ")]
             if p:
                 hx = p[0].split()[2]; odd = c[3] & 1; una = odd and ((c[3] - 1) % 4 != 0)
-                off = 6 if una else (4 if odd else 8)
+                off = 6 if una else 8          # the literal: directly after the bx when the Thumb entry is 2 mod 4, else in the third word
                 x = int.from_bytes(bytes.fromhex(hx[2 * off: 2 * off + 8]), "little"); lit[c[0]] = x
         mlines.append(f"{c[0]} inst arm 1 1 exec {c[3]:x} 0 {x:x}")
     model = vlib.run_model(mlines)
@@ -58,7 +58,7 @@ def run(res, tier, seed, replay):
             for e in iev:
                 if e.startswith("P "):
                     hx = bytes.fromhex(e.split()[2]); odd = c[3] & 1
-                    units[(bool(odd), hx[:8 if not odd else (6 if (c[3] - 1) % 4 else 4)])] = 1
+                    units[(bool(odd), hx[:8 if not odd else (6 if (c[3] - 1) % 4 else 8)])] = 1
             # saved range = patched range
             g = [e for e in iev if e.startswith("G ")]; p = [e for e in iev if e.startswith("P ")]; rd = [e for e in iev if e.startswith("R ")]
             if g and p and rd:
@@ -87,14 +87,14 @@ def run(res, tier, seed, replay):
             else:
                 res.violation(f"{state} entry patch modifies {sorted(bad)}, which a callee must preserve (AAPCS)", case, v)
     if known_hit:
-        res.known.append(f"Thumb-state entry patch (ldr r7,[pc,#0] ; bx r7) destroys the callee-saved r7 in {known_hit} of {len(M)} executed cases")
+        res.known.append(f"Thumb-state entry patch (ldr r7,[pc,#0] ; bx r7) destroys the callee-saved r7 in {known_hit} of {len(M)} executed cases")      # only while an OPEN entry of that class exists in known_findings.json
     # decoder vs llvm-mc on the instruction part of every distinct patch
     bad = []
     for (thumb, code) in list(units)[:2000]:
         inp = " ".join(f"0x{b:02x}" for b in code)
         p = subprocess.run(["llvm-mc-14", "--disassemble", "-triple=" + ("thumbv7" if thumb else "armv7")], input=inp, capture_output=True, text=True)
         lines = [l.strip().replace("\t", " ") for l in p.stdout.split("\n") if l.strip() and not l.strip().startswith(".text")]
-        want = (["ldr r7, [pc, #0]", "bx r7"] if len(code) == 4 else ["mov r8, r8", "ldr r7, [pc, #0]", "bx r7"]) if thumb else None
+        want = (["ldr.w r12, [pc, #4]", "bx r12"] if len(code) == 6 else ["ldr.w r12, [pc, #4]", "bx r12", "mov r8, r8"]) if thumb else None
         if thumb:
             if lines != want: bad.append(dict(code=code.hex(), llvm=lines))
         else:
